@@ -9,7 +9,7 @@ from vmon import interpose
 from vmon.core import rng_for
 from vmon.refs import graph, rank
 
-PATTERNS = ('gram', 'equi', 'ties', 'negative', 'block', 'monotone', 'near_dup')
+PATTERNS = ('gram', 'equi', 'ties', 'negative', 'block', 'monotone', 'near_dup', 'zero_tau')
 SENTINELS = {'pos': 111.0, 'neg': -222.0, 'nan': float('nan'), 'zero': 0.0}
 
 
@@ -50,6 +50,13 @@ def make_table(spec):
     elif pat == 'near_monotone':
         # two almost perfectly monotone columns (tau about 0.97-0.99): h-functions reach 0 and 1 in floating point
         X[:, -1] = X[:, 0] + float(rng.uniform(0.01, 0.04)) * rng.standard_normal(n)
+    elif pat == 'zero_tau':
+        # an even function of a symmetric grid: Kendall tau with that column is exactly 0
+        g = np.linspace(-1, 1, n) if n % 2 == 0 else np.linspace(-1, 1, n + 1)[:n]
+        g = np.concatenate([-np.abs(g[: n // 2]), np.abs(g[: n // 2])[::-1], np.zeros(n - 2 * (n // 2))])[:n]
+        X[:, 0] = g + 0.0
+        j = 1 + int(rng.integers(max(1, d - 1))) if d > 1 else 0
+        X[:, j] = g ** 2 + (0 if rng.random() < 0.5 else 0) 
     elif pat == 'near_monotone_exp':
         X[:, -1] = np.exp(X[:, 0]) + 0.02 * rng.standard_normal(n)
     perm = spec.get('perm') or list(range(d))
